@@ -184,7 +184,49 @@ func (r *rw) fileRewrite(f *ast.File) {
 }
 
 // seams: T6/T7/T9 expression-level redirections
+// isNetTCPConnPtr reports whether e is the type expression *net.TCPConn.
+func (r *rw) isNetTCPConnPtr(e ast.Expr) bool {
+	st, ok := e.(*ast.StarExpr)
+	if !ok {
+		return false
+	}
+	se, ok := st.X.(*ast.SelectorExpr)
+	if !ok || se.Sel.Name != "TCPConn" {
+		return false
+	}
+	id, ok := se.X.(*ast.Ident)
+	if !ok {
+		return false
+	}
+	pn, ok := r.info.Uses[id].(*types.PkgName)
+	return ok && pn.Imported().Path() == "net"
+}
+
+func (r *rw) tcpConnIface() ast.Expr {
+	r.used = true
+	r.stats["seam"]++
+	return &ast.SelectorExpr{X: ast.NewIdent("simhook"), Sel: ast.NewIdent("TCPConn")}
+}
+
 func (r *rw) seams(n ast.Node) {
+	// T10: conn.(*net.TCPConn) and `case *net.TCPConn:` ask for the socket behind a connection (linger, no-delay,
+	// keep-alive, half-close).  In simulation the connection is the simulated one: the assertion is made against an
+	// interface that both satisfy.  (A value obtained this way that is then used as a *net.TCPConn - passed on,
+	// stored in a typed variable - no longer compiles: a build failure, not a silently skipped seam.)
+	switch v := n.(type) {
+	case *ast.TypeAssertExpr:
+		if v.Type != nil && r.isNetTCPConnPtr(v.Type) {
+			v.Type = r.tcpConnIface()
+		}
+		return
+	case *ast.CaseClause:
+		for i, e := range v.List {
+			if r.isNetTCPConnPtr(e) {
+				v.List[i] = r.tcpConnIface()
+			}
+		}
+		return
+	}
 	se, ok := n.(*ast.SelectorExpr)
 	if !ok {
 		return
